@@ -10,14 +10,19 @@ FORBIDDEN = re.compile(r'\b(sorry|admit|native_decide|bv_decide|implemented_by|u
 
 
 class Lock:
+    """Exclusive while Extracted.lean is regenerated and the Lean targets are built, then *shared* until the process
+    exits: checks of the same tree run in parallel, a check of another tree (which would regenerate Extracted.lean and
+    rebuild the driver) waits until the running ones are done."""
+    _held = None
+
     def __enter__(self):
-        self.f = open(os.path.join(LEAN, '.buildlock'), 'w')
-        fcntl.flock(self.f, fcntl.LOCK_EX)
+        if Lock._held is None:
+            Lock._held = open(os.path.join(LEAN, '.buildlock'), 'w')
+        fcntl.flock(Lock._held, fcntl.LOCK_EX)
         return self
 
     def __exit__(self, *a):
-        fcntl.flock(self.f, fcntl.LOCK_UN)
-        self.f.close()
+        fcntl.flock(Lock._held, fcntl.LOCK_SH)      # keep a shared lock for the rest of this run
 
 
 def lake(args, timeout=1500):
